@@ -69,6 +69,7 @@ class Spec:
                  explanation='', design_ref='', python_semantics=None, known_clause_map=None,
                  regular_strings=False):
         self.regular_strings = regular_strings
+        self.level = 'proof'      # evidence level when everything is discharged ('exploration' when the bounded part is what decides)
         self.lemmas = []          # [(name, z3 formula)]: theory lemmas used by the contracts, proved on every run
         self.property_id, self.world, self.make_models = property_id, world, make_models
         self.targets = targets                    # list of contract names to prove
@@ -243,7 +244,7 @@ def finish(spec, modname, tier, seed, reports, bounded, t0, write_ledger=False):
         print('VIOLATION property=%s replay=%s%s' % (pid, fn, suffix))
     wall = time.time() - t0
     proof_ok = (n_obl > 0 and n_dis == n_obl and not undecided)
-    level = 'proof' if proof_ok else 'other'
+    level = getattr(spec, 'level', 'proof') if proof_ok else 'other'
     cov = {
         'obligations': n_obl, 'discharged': n_dis,
         'checker_cmd': './check %s --tier %s' % (pid, tier),
